@@ -132,7 +132,12 @@ def gen(rng, tier, i):
                 body = tag
             o = rng.choice(origins)
             dgs.append({"tag": tag.decode(), "len": len(body), "hash": rc.fnv64(body), "origin": o["id"], "body": body})
-        sess = {"s": s, "client": "%s:%d" % (cip, cport), "dgs": dgs, "entry": entry, "v6": False}
+        # an empty datagram is a datagram: it travels like the others and ends nothing. It cannot carry a tag, so it is only
+        # counted; it goes where the datagram after it goes
+        empties = []
+        if rng.random() < 0.2:
+            empties = sorted(set(rng.randrange(ndg) for _ in range(rng.choice([1, 1, 2]))))
+        sess = {"s": s, "client": "%s:%d" % (cip, cport), "dgs": dgs, "entry": entry, "v6": False, "empties": empties}
         if entry == "socks5udp":
             # one address family per association (the association's upstream socket has one family)
             fam = rng.choice(origins)["v6"]
@@ -145,7 +150,9 @@ def gen(rng, tier, i):
             for d in dgs:
                 d["origin"] = o["id"]
             ops = [op("sleep", ms=rng.choice([0, 3, 50]))]
-            for d in dgs:
+            for k, d in enumerate(dgs):
+                if k in empties:
+                    ops += [op("send", to=li["addr"], hex=""), op("sleep", ms=gap)]
                 ops += [op("send", to=li["addr"], hex=d["body"].hex()), op("sleep", ms=gap)]
             ops.append(op("sleep", ms=3000))
             sc.actors.append({"kind": "udp", "id": "u%d" % s, "bind": sess["client"], "start_ms": t0, "ops": ops})
@@ -156,10 +163,12 @@ def gen(rng, tier, i):
                     op("set", flag="assoc%d" % s), op("recv_eof", timeout_ms=6000, label="ctl-eof", on_fail="continue")]
             sc.actors.append({"kind": "tcp_client", "id": cid, "src": cip, "dst": ls["addr"], "start_ms": t0, "ops": ctrl})
             ops = [op("wait", flag="assoc%d" % s, timeout_ms=5000)]
-            for d in dgs:
+            for k, d in enumerate(dgs):
                 o = [x for x in origins if x["id"] == d["origin"]][0]
                 host = o["name"] if (o["name"] and rng.random() < 0.7) else o["ip"]
                 d["dest"] = host
+                if k in empties:
+                    ops += [op("send", to="socks5reply:" + cid, hex=rc.socks5_udp_wrap(host, o["port"], b"").hex()), op("sleep", ms=gap)]
                 ops += [op("send", to="socks5reply:" + cid, hex=rc.socks5_udp_wrap(host, o["port"], d["body"]).hex()), op("sleep", ms=gap)]
             ops.append(op("sleep", ms=3000))
             sc.actors.append({"kind": "udp", "id": "u%d" % s, "bind": sess["client"], "start_ms": t0, "ops": ops})
@@ -183,13 +192,18 @@ def gen(rng, tier, i):
                 target = o0["addr"] if not o0["name"] else "%s:%d" % (o0["name"], o0["port"])
             req = rc.http_connect(target, [("Host", target), ("Proxy-Protocol", "udp")])
             frames = b""
-            for d in dgs:
+            cuts = []
+            for k, d in enumerate(dgs):
                 o = [x for x in origins if x["id"] == d["origin"]][0]
                 host = o["name"] if (o["name"] and rng.random() < 0.7) else o["ip"]
                 d["dest"] = host
+                if k in empties:
+                    cuts.append(len(rc.rpfm_frame(0, host, o["port"], b"")))
+                    frames += rc.rpfm_frame(0, host, o["port"], b"")
+                cuts.append(len(rc.rpfm_frame(0, host, o["port"], d["body"])))
                 frames += rc.rpfm_frame(0, host, o["port"], d["body"])
             ops = [send(req), op("recv_http_head", label="reply"),
-                   op("par", w=[send(frames, cuts=[len(rc.rpfm_frame(0, d["dest"], 1, d["body"])) for d in dgs[:-1]], gap_ms=gap), op("sleep", ms=3000), op("shutdown")],
+                   op("par", w=[send(frames, cuts=cuts[:-1], gap_ms=gap), op("sleep", ms=3000), op("shutdown")],
                       r=[op("collect_rpfm", ms=3500, timeout_ms=6000, label="frames")])]
             sc.actors.append({"kind": "tcp_client", "id": "h%d" % s, "src": cip, "dst": lh["addr"], "start_ms": t0, "ops": ops})
             sess["cid"] = "h%d" % s
@@ -232,6 +246,11 @@ def oracle(plan, out):
                 stray_at_origin.append(r)
             else:
                 at_origin.setdefault(tag, []).append((r["actor"], r["len"], r["hash"], r["peer"]))
+    sent_empty = sum(len(s.get("empties", [])) for s in meta["sessions"])
+    n_empty_at_origin = len([r for r in stray_at_origin if r["len"] == 0])
+    if n_empty_at_origin > sent_empty:
+        v("phantom-datagram", "origins received %d empty datagrams, clients sent %d" % (n_empty_at_origin, sent_empty))
+    stray_at_origin = [r for r in stray_at_origin if r["len"] != 0]
     for r in stray_at_origin:
         v("phantom-datagram", "origin %s received a datagram nobody sent: len=%d %s (a receive error or an empty frame materialised?)" % (r["actor"], r["len"], r["hex"][:40]))
     all_tags = {}
@@ -284,6 +303,10 @@ def oracle(plan, out):
                     replies.append((body[:16].decode("latin1"), (host if isinstance(host, str) else (host or b"").decode("latin1"), port), body_len, None, None))
         mine = set(d["tag"] for d in s["dgs"])
         seen_reply = {}
+        empty_replies = [x for x in replies if x[2] == 0]
+        replies = [x for x in replies if x[2] != 0]
+        if len(empty_replies) > len(s.get("empties", [])):
+            v("phantom-datagram", "session %d's client received %d empty datagrams, it sent %d" % (s["s"], len(empty_replies), len(s.get("empties", []))))
         for (tag, label, ln, hsh, peer) in replies:
             if tag not in all_tags:
                 v("phantom-datagram", "session %d's client received a datagram nobody sent: %r" % (s["s"], tag))
